@@ -66,7 +66,7 @@ Proof. destruct o; intros H; [apply commit_some in H | apply commit_none in H]; 
 
 Lemma run_input_acc_mono f now s i : acc_mono (s_accounts s) (s_accounts (outcome_state (run_input f now s i) s)).
 Proof.
-  destruct i as [ps ts ref md amd force | id force at_eff | [a|id] md | [a|id] k]; simpl.
+  destruct i as [ps ts ref md amd force | id force at_eff rmeta | [a|id] md | [a|id] k]; simpl.
   - destruct ps as [|p ps']; [apply acc_mono_refl|].
     destruct (feasible force (s_vols s) (p :: ps')); simpl; [|apply acc_mono_refl].
     destruct (commit_transaction f now s (p :: ps') md ts ref) as [s1 [t|]] eqn:E; simpl.
